@@ -36,7 +36,7 @@ def plan(tier, seed):
     n = 12 if q else 32
     specs = [{"kind": "exh", "i": i, "n": n, "max_obj": 3 if q else 4, "max_sp": 3, "lab_exh": not q} for i in range(n)]
     specs += [{"kind": "rand", "i": i, "count": 70 if q else 400, "max_obj": 5, "max_sp": 5, "max_fam": 4} for i in range(4 if q else 16)]
-    specs += [{"kind": "cli", "i": i, "count": 3 if q else 8} for i in range(4 if q else 8)]
+    specs += [{"kind": "cli", "i": i, "count": 4 if q else 10} for i in range(7 if q else 14)]
     return specs
 
 
@@ -267,7 +267,7 @@ def run_cli_part(ctx, spec):
         c = gen.random_cost(rng, coherent_only=False)
         if algo == "lca":
             c["hgt"] = "inf"
-        case = {"kind": "cli", "algo": algo, "G": Gn, "S": Sn, "leafmap": lm, "costs": c, "policy": rng.choice(["any", "all"])}
+        case = {"kind": "cli", "algo": algo, "G": Gn, "S": Sn, "leafmap": lm, "costs": c, "policy": rng.choice(["any", "all", "all"])}
         if SC.kind_of(algo) != "plain":
             case["syn"] = gen.random_syntenies(rng, list(lm), 3, ordered=SC.kind_of(algo) == "ordered", consistent_p=1.0)
         check_cli(ctx, case)
